@@ -150,3 +150,26 @@ impl notify::EventHandler for NotifyEventHandler {
         }
     }
 }
+
+/// Verification hooks: access to the private path -> entry mapping and to the
+/// `notify` event handler, bound to an arbitrary `EventSender`.
+#[cfg(assets_manager_verif)]
+pub(super) mod verif_hooks {
+    use super::*;
+
+    pub fn id_of_path(root: &Path, path: &Path) -> Option<OwnedDirEntry> {
+        super::id_of_path(&mut IdBuilder::default(), root, path)
+    }
+
+    pub fn event_handler(
+        roots: Vec<PathBuf>,
+        events: crate::hot_reloading::EventSender,
+    ) -> impl notify::EventHandler {
+        NotifyEventHandler {
+            roots,
+            events,
+            id_builder: IdBuilder::default(),
+            watcher: None,
+        }
+    }
+}
